@@ -65,10 +65,7 @@ def bounds_obligations(run):
         out = os.path.join(root, "steel_core.mir")
         env = dict(os.environ, CARGO_NET_OFFLINE="true")
         env.pop("RUSTFLAGS", None)
-        with open(out, "w") as f, open(os.path.join(root, "mir.err"), "w") as e:
-            subprocess.run(["cargo", "+nightly", "rustc", "--offline", "-p", "steel-core", "--lib", "--no-default-features",
-                            "--features", ws.FEATURES, "--target-dir", os.path.join(root, "tmir"), "--",
-                            "-Zunpretty=mir", "-C", "debug-assertions=off"], cwd=wsdir, stdout=f, stderr=e, env=env)
+        ws.mir_dump(wsdir, root, out, env)
         names = set(reg)
         funcs = mir.parse(open(out).read(), lambda n: n.split("::")[-1] in names)
         run._mir = dict(wsdir=wsdir, root=root, out=out, reg=reg, env=env)
